@@ -2,7 +2,7 @@
 From Coq Require Import Ascii String List Bool Arith ZArith NArith Lia.
 From PTBase Require Import Exn PyStr PyNum PyVal Fmt FixedFormat.
 From Gen Require Import GenTables GenSections.
-From P Require Import Comb Obj Fields Idem Sections SectionsB Rec Prog T2DataIO Whole IdemSec IdemSecB IdemWhole Example.
+From P Require Import Comb Obj Fields Idem Sections SectionsB Rec Prog T2DataIO Whole IdemSec IdemSecB IdemMeshm IdemWhole Example.
 Import ListNotations.
 Open Scope string_scope.
 
@@ -56,18 +56,15 @@ Proof.
   exists ls, ls'. auto.
 Qed.
 
-(** every section kind but MESHMAKER *)
-Lemma idem_covered_all k : In k covered -> k <> "MESHM" -> In k idem_covered.
+(** every section kind *)
+Lemma idem_covered_all k : In k covered -> In k idem_covered.
 Proof.
-  intros H N. unfold covered, covered21 in H. cbn [In app] in H.
-  repeat (destruct H as [H|H]; [subst k; try (exfalso; apply N; reflexivity); cbn; tauto|]). contradiction.
+  intros H. unfold covered, covered21 in H. cbn [In app] in H.
+  repeat (destruct H as [H|H]; [subst k; cbn; tauto|]). contradiction.
 Qed.
 
-(** the two objects of Example.v (every section kind of [idem_covered]) meet them *)
-Definition no_meshm (ks : list string) : list string := filter (fun k => negb (k =? "MESHM")) ks.
-Definition drop_meshm (d : t2d) : t2d :=
-  set_sections (set_meshmaker d []) (filter (fun k => negb (str_eqb k (s2l "MESHM"))) (sections d)).
-Example example_tough2_idem : idem_hyps (drop_meshm example_tough2) (no_meshm example_tough2_order) = true.
+(** the two objects of Example.v (all 23 section kinds between them) meet them *)
+Example example_tough2_idem : idem_hyps example_tough2 example_tough2_order = true.
 Proof. vm_compute. reflexivity. Qed.
-Example example_autough2_idem : idem_hyps (drop_meshm example_autough2) (no_meshm example_autough2_order) = true.
+Example example_autough2_idem : idem_hyps example_autough2 example_autough2_order = true.
 Proof. vm_compute. reflexivity. Qed.
